@@ -35,6 +35,7 @@ def plan(tier, seed):
         nsh = 4
         for sh in range(nsh):
             jobs.append({"func": "rs_handshake", "fw": fw, "name": "rs-hs/%s/%d" % (fw, sh), "args": {"shard": sh, "nshards": nsh, "stride": 2 if q else 1, "offset": seed % 2 if q else 0}})
+        jobs.append({"func": "coalesced", "fw": fw, "name": "coalesced/%s" % fw, "args": {"full": not q, "offset": seed}})
         jobs.append({"func": "ws_subprotocols", "fw": fw, "name": "ws-sub/%s" % fw, "args": {"stride": 2 if q else 1, "offset": seed % 2 if q else 0}})
         for sh in range(2 if q else 6):
             jobs.append({"func": "traffic", "fw": fw, "name": "traffic/%s/%d" % (fw, sh), "args": {"seed": seed * 1000 + i * 100 + sh, "n": 300 if q else 2000}})
@@ -103,6 +104,99 @@ def feed_split(ep, data, split):
     else:
         for i in range(len(data)):
             ep.feed(data[i:i + 1])
+
+
+# ---------------------------------------------------------------- (a') handshake and first frames in one stream
+
+COALESCED_MSGS = [[16, 1, {}, "com.example.topic", ["first", 1]], [16, 2, {"acknowledge": True}, "com.example.topic2", ["x" * 40], {"k": 2}], [6, {}, "wamp.close.normal"]]
+
+
+def coalesced_one(d, kind, role, ser, cuts):
+    from harness import wamptx, wsutil, ref6455
+    rs, ws = _mods()
+    msgs = COALESCED_MSGS
+    log = []
+    if kind == "rs":
+        if role == "server":
+            f = rs.WampRawSocketServerFactory(lambda: RecSession(log), serializers=ser_objs([ser]))
+            ep = d.connect(f)
+            head = bytes([0x7F, 0xF0 | SER_ID[ser], 0, 0])
+        else:
+            f = rs.WampRawSocketClientFactory(lambda: RecSession(log), serializer=ser_objs([ser])[0])
+            ep = d.connect(f)
+            d.settle()
+            ep.take()
+            head = bytes([0x7F, 0xF0 | SER_ID[ser], 0, 0])
+        body = b"".join(struct.pack("!L", len(x)) + x for x in (wamptx.dumps(ser, m) for m in msgs))
+    else:
+        kw = {"reactor": d.clock} if d.fw == "twisted" else {"loop": d.loop}
+        binary = ser != "json"
+        if role == "server":
+            f = ws.WampWebSocketServerFactory(lambda: RecSession(log), url="ws://localhost:9000", serializers=ser_objs([ser]), **kw)
+            f.setProtocolOptions(openHandshakeTimeout=0, closeHandshakeTimeout=0)
+            ep = d.connect(f)
+            head = wsutil.raw_request(protocols=["wamp.2." + ser])
+            mk = b"\x11\x22\x33\x44"
+        else:
+            f = ws.WampWebSocketClientFactory(lambda: RecSession(log), url="ws://localhost:9000", serializers=ser_objs([ser]), **kw)
+            f.setProtocolOptions(openHandshakeTimeout=0, closeHandshakeTimeout=0, serverConnectionDropTimeout=0)
+            ep = d.connect(f)
+            d.settle()
+            parsed = wsutil.split_http(ep.take())
+            head = wsutil.raw_response(dict(parsed[1]).get("sec-websocket-key"), protocol="wamp.2." + ser)
+            mk = None
+        body = b"".join(ref6455.encode_frame(2 if binary else 1, wamptx.dumps(ser, m), mask=mk) for m in msgs)
+    data = head + body
+    prev = 0
+    for cpos in list(cuts) + [len(data)]:
+        ep.feed(data[prev:cpos])
+        prev = cpos
+    d.settle()
+    case = {"check": "coalesced", "kind": kind, "role": role, "ser": ser, "cuts": list(cuts), "headlen": len(head)}
+    esc = list(ep.escaped) + list(d.loop_errors)
+    d.loop_errors[:] = []
+    if esc:
+        e = esc[0]
+        raise Violation("C13|coalesced|exception-escaped|" + (exc_key(e) if isinstance(e, Exception) else "loop"), repr(e)[:300], case)
+    opens = [x for x in log if x[0] == "open"]
+    got = [x[1].marshal() for x in log if x[0] == "msg"]
+    if len(opens) != 1:
+        raise Violation("C13|coalesced|session-not-attached-once", "%s %s cuts %r: %d onOpen calls" % (kind, role, cuts, len(opens)), case)
+    if [wamptx.loads("json", wamptx.dumps("json", g)) for g in got] != msgs:
+        raise Violation("C13|coalesced|messages-after-handshake-lost-or-altered", "%s %s/%s cuts %r (handshake %d octets): delivered %r" % (
+            kind, role, ser, cuts, len(head), brief(got)), case)
+    if ep.drop_requested:
+        raise Violation("C13|coalesced|valid-stream-dropped", "%s %s cuts %r" % (kind, role, cuts), case)
+    return len(data), len(head)
+
+
+def coalesced(col, full, offset):
+    """scripted raw peer -> library endpoint: the peer's handshake octets followed immediately by WAMP frames, delivered under every segmentation
+    with one or two cuts (RawSocket, both roles: enumerated completely; WebSocket: every single cut, two cuts sampled).  The session must be attached
+    once and receive exactly the frames' messages, in order, whatever the cuts are."""
+    from harness import drv, wamptx, wsutil, ref6455
+    rs, ws = _mods()
+    d = drv.get_driver()
+    n = 0
+    for kind in ("rs", "ws"):
+        for role in ("server", "client"):
+            for si, ser in enumerate(SERS if full else [SERS[(offset + (kind == "ws") + (role == "client")) % 4]]):
+                total, headlen = coalesced_one(d, kind, role, ser, ())
+                if kind == "rs":
+                    lim = min(total, headlen + 16)
+                    combos = [(i,) for i in range(1, total)] + [(i, j) for i in range(1, lim) for j in range(i + 1, total)]
+                else:
+                    combos = [(i,) for i in range(1, total)] + [(i, j) for i in range(headlen - 6, headlen + 1) for j in range(i + 1, min(total, headlen + 12))]
+                    if full:
+                        combos += [(i, j) for i in range(1, headlen, 7) for j in range(headlen - 3, min(total, headlen + 8)) if j > i]
+                for cuts in combos:
+                    coalesced_one(d, kind, role, ser, cuts)
+                    n += 1
+                    straddle = any(c_ >= headlen for c_ in cuts) and any(0 < c_ < headlen for c_ in cuts) or (len(cuts) == 1 and 0 < cuts[0] < headlen)
+                    col.case(straddle, enum=True, cls=["coalesced/%s/%s" % (kind, role)] + (["coalesced/handshake-completing-read-carries-frame-octets"] if straddle else []),
+                             sample={"kind": kind, "role": role, "ser": ser, "cuts": cuts, "handshake_octets": headlen})
+    d.close()
+    col.exhaustive.append("handshake+frames stream: RawSocket every 1-cut and every 2-cut segmentation with the first cut within 16 octets after the handshake; WebSocket every 1-cut")
 
 
 # ---------------------------------------------------------------- (a) RawSocket handshake
@@ -548,6 +642,15 @@ def check_corruption(c):
         d.close()
 
 
+def replay_coalesced(c):
+    from harness import drv
+    d = drv.get_driver()
+    try:
+        coalesced_one(d, c["kind"], c["role"], c["ser"], tuple(c["cuts"]))
+    finally:
+        d.close()
+
+
 def replay(col, case):
     case = dec(case)
     c = case.get("case", case)
@@ -575,6 +678,10 @@ def replay(col, case):
         d.close()
         return
     if kind == "ws-sub":
+        return
+    if kind == "coalesced":
+        replay_coalesced(c)
+        col.case()
         return
     c.pop("check", None)
     if "fault" in c:
